@@ -160,6 +160,7 @@ Print Assumptions C18_roundtrip_any_arrival_order.
     of a peer INSIDE the heap through the shared *peerStat - peerTracker.peers() hands the
     tracker's own pointers to every session, and doRequest calls updateStats / decreaseScore
     on them while other sessions still have the peer in their heaps). *)
+From Coq Require Import Permutation.
 From GH Require Import Model.PeerQueue Proofs.PeerQueueP.
 
 (** heap.Push keeps the heap invariant (every element <= its parent), for any score of the
@@ -173,7 +174,7 @@ Theorem C18_pq_pop_keeps_heap_returns_best :
   forall (l : list entry) (e : entry) (h : list entry),
   heap_ok l -> heap_pop l = Some (e, h) ->
   heap_ok h /\ forall x, In x l -> (sc x <= sc e)%Z.
-Proof. intros l e h H1 H2. split; [exact (heap_pop_ok l e h H1 H2)|exact (heap_pop_max l e h H1 H2)]. Qed.
+Proof. exact pq_pop_keeps. Qed.
 
 (** the multiset of queued peers: Push adds exactly the pushed one, Pop removes exactly the
     returned one - for ANY array, heap-ordered or not *)
@@ -181,7 +182,7 @@ Theorem C18_pq_multiset :
   forall (l : list entry),
   (forall x, Permutation (heap_push l x) (x :: l)) /\
   (forall e h, heap_pop l = Some (e, h) -> Permutation l (e :: h)).
-Proof. intros l. split; [exact (heap_push_perm l)|exact (heap_pop_perm l)]. Qed.
+Proof. exact pq_multiset. Qed.
 
 (** heap.Pop panics exactly on the empty heap *)
 Theorem C18_pq_pop_panics_iff_empty :
@@ -191,13 +192,13 @@ Proof. exact heap_pop_none. Qed.
 (** every sequence of Push / Pop from the heap newPeerQueue builds stays a heap *)
 Theorem C18_pq_heap_all_sequences :
   forall (init : list entry) (ops : list hop), heap_ok (hrun (heap_of init) ops).
-Proof. intros init ops. exact (hrun_ok ops (heap_of init) (heap_of_ok init)). Qed.
+Proof. exact pq_all_sequences. Qed.
 
 (** the loops of up / down are never cut by the model's fuel: any sufficient fuel gives the same array *)
 Theorem C18_pq_fuel_irrelevant :
   (forall f1 f2 l j, (j < f1)%nat -> (j < f2)%nat -> up_f f1 l j = up_f f2 l j) /\
   (forall f1 f2 l i n, (n - i <= f1)%nat -> (n - i <= f2)%nat -> down_f f1 l i n = down_f f2 l i n).
-Proof. split; [exact up_fuel_irrelevant|exact down_fuel_irrelevant]. Qed.
+Proof. exact pq_fuel. Qed.
 
 (** token/heap pairing, for EVERY interleaving of the two-step operations of any number of
     goroutines, score changes inside the heap included: tokens + threads between token and
@@ -223,7 +224,7 @@ Theorem C18_pq_pop_never_on_empty_heap :
   forall (init : list entry) (k : nat) (sch : list sev) (t : nat),
   let s := crun (c_init init k) sch in
   nth_error (c_pcs s) t = Some HasToken -> exists e h, heap_pop (c_heap s) = Some (e, h).
-Proof. intros init k sch t. exact (inv_pop_ok _ _ t (reach_inv init k sch)). Qed.
+Proof. exact pq_pop_never. Qed.
 
 (** a push never blocks (only popped peers are pushed back): when a thread is about to send
     its token the channel has room *)
@@ -231,7 +232,7 @@ Theorem C18_pq_push_never_blocks :
   forall (init : list entry) (k : nat) (sch : list sev) (t : nat),
   let s := crun (c_init init k) sch in
   nth_error (c_pcs s) t = Some Pushed -> (c_tok s < c_cap s)%nat.
-Proof. intros init k sch t. exact (inv_send_ok _ _ t (reach_inv init k sch)). Qed.
+Proof. exact pq_push_never. Qed.
 
 (** no lost wake-up: with a token in the channel an idle thread's waitPop completes in its own
     next two steps; and when no thread is inside push or waitPop the tokens are exactly the
@@ -242,11 +243,7 @@ Theorem C18_pq_no_lost_wakeup :
   (forall t c1 c2, nth_error (c_pcs s) t = Some Idle -> (0 < c_tok s)%nat ->
      exists p, nth_error (c_pcs (crun s [Thr t c1; Thr t c2])) t = Some (Holding p)) /\
   (cnt is_hastoken (c_pcs s) = 0%nat -> cnt is_pushed (c_pcs s) = 0%nat -> c_tok s = length (c_heap s)).
-Proof.
-  intros init k sch. split.
-  - intros t c1 c2. exact (inv_wakeup _ _ t c1 c2 (reach_inv init k sch)).
-  - exact (inv_quiescent _ _ (reach_inv init k sch)).
-Qed.
+Proof. exact pq_no_lost. Qed.
 
 (** as long as no score changes INSIDE the heap (scores of peers that are out may change at
     will: [Thr t (Some v)] pushes with any v), every reachable heap satisfies the heap
@@ -277,7 +274,7 @@ Proof. exact inheap_witness. Qed.
 (** non-vacuity: container/heap's tie order on equal scores, and a two-thread run in which
     both peers are popped, one is dropped, one comes back *)
 Example C18_pq_ties :
-  heap_of [(0, 1%Z); (1, 1%Z); (2, 1%Z); (3, 7%Z); (4, 7%Z)] = [(3, 7%Z); (4, 7%Z); (2, 1%Z); (0, 1%Z); (1, 1%Z)] /\
+  heap_of [(0, 1%Z); (1, 1%Z); (2, 1%Z); (3, 7%Z); (4, 7%Z)] = [(3, 7%Z); (4, 7%Z); (2, 1%Z); (1, 1%Z); (0, 1%Z)] /\
   option_map fst (heap_pop (heap_of [(0, 1%Z); (1, 1%Z); (2, 1%Z); (3, 7%Z); (4, 7%Z)])) = Some (3, 7%Z).
 Proof. vm_compute. split; reflexivity. Qed.
 
